@@ -106,7 +106,7 @@ def run(tier):
     # a period assigned to an orbit takes effect however close it is to the old one (C05.d)
     from . import c13, c05
     from .common import Relabel
-    c13._f_members(Relabel(chk, {"C13.f": "C03.d-period", "C13.b": "C03.d-period"}))
+    c13._f_members(Relabel(chk, {"C13.f": "C03.d-period", "C13.b": "C03.d-period"}), scheme=False)   # the periods only: which scheme corrects a member is C13 / C05
     c05._d_period_setter(Relabel(chk, {"C05.d": "C03.d-period"}))
     return chk
 
